@@ -13,7 +13,9 @@ func init() {
 }
 
 func runC02(p *Prog, r *Report) {
-	noRequeue(p, r, "C02.14/no-requeue", func(rel string) bool { return strings.HasPrefix(rel, "protocol/") || strings.HasPrefix(rel, "transport") || rel == "internal/core" })
+	noRequeue(p, r, "C02.14/no-requeue", func(rel string) bool {
+		return strings.HasPrefix(rel, "protocol/") || strings.HasPrefix(rel, "transport") || rel == "internal/core"
+	})
 	r.Floor("C02.14/no-requeue", "requeue_sites.C02.14/no-requeue", 3)
 	queuePops(p, r, "C02.12/queue-pops", func(rel string) bool { return rel == "protocol/xpush" || strings.HasPrefix(rel, "transport") })
 	r.Floor("C02.12/queue-pops", "queue_pop_sites", 2)
